@@ -22,6 +22,22 @@ def lastDrained (h : List Cycle) : Bool :=
   | some cy => decide (cy.pushes.length < cy.pulls) && !cy.clear
   | none => false
 
+/-- a call returned an error (anything but nil / io.EOF) -/
+def reported (outs : List Out) : Bool :=
+  (outs.find? (fun o => o.res != .ok && o.res != .eof && o.res != .rejected)).isSome
+
+/-- The executable statement "an I/O failure is never hidden" on the outputs of a program that is
+    the well-formed history `h`: the first call that did not succeed returned an error (it did not
+    panic or hang), or no call failed and the outputs satisfy the statement of C11.  `none` = the
+    statement holds.  Proved sound in `Properties/C13_history.lean` (`surfaceStatement_sound`). -/
+def surfaceStatement (ac : Bool) (h : List Cycle) (ops : List Op) (outs : List Out) : Option String :=
+  -- (the type-mismatch error of a rejected Push is not the report of an I/O failure)
+  let firstBad := outs.find? (fun o => o.res != .ok && o.res != .eof && o.res != .rejected)
+  if firstBad.any (fun o => o.res == .panic || o.res == .hang) then
+    some "a-call-panicked-before-any-error-was-returned"
+  else if firstBad.isSome then none
+  else (Biogo.Drive.C11.programStatement ac h ops outs).map (fun why => s!"success-reported-throughout-but:{why}")
+
 def handleTokens (inp : List String) (obs : String) : Verdict :=
   match inp with
   | "x" :: rest =>
@@ -41,11 +57,16 @@ def handleTokens (inp : List String) (obs : String) : Verdict :=
       let m := maskDisk (modelRender r)
       let impl := maskDisk (implRender implToks)
       let fired := w.flt.isSome && r.final.flt.isNone
-      let tags := [if w.conc then "concurrent" else "sequential",
+      -- the cycle in which the failure surfaced (model): Clear calls completed before it
+      let firstErr := r.outs.findIdx? (fun o => o.res == .ioerr)
+      let errCycle : List String := match firstErr with
+        | some i => [s!"error-in-cycle{min (((w.ops.take i).filter (· == Op.clear)).length + 1) 3}"]
+        | none => []
+      let tags := errCycle ++ [if w.conc then "concurrent" else "sequential",
                    match w.flt with | some (p, _) => "fault-" ++ (reprStr p).replace "Biogo.MorassConc.Pt." "" | none => "no-fault"]
                   ++ (if fired then ["fault-fired", "nt"] else [])
                   ++ (if w.aclean then ["autoclean"] else []) ++ (if w.ac then ["autoclear"] else [])
-      match Biogo.Morass.historyOf w.ac w.ops with
+      match Biogo.Morass.historyOf w.ac (Biogo.Morass.dropRejects w.ops) with
       | none => if m == impl then ok (tags ++ ["illformed"]) else diff m (tags ++ ["illformed"])
       | some h =>
         let tags := tags ++ (if w.flt.isNone && lastDrained h && (w.ac || w.aclean) then ["nt", "residue"] else [])
@@ -60,16 +81,9 @@ def handleTokens (inp : List String) (obs : String) : Verdict :=
             match outToks.mapM parseOutE with
             | none => fail "unparsable-observation" tags
             | some outs =>
-              let firstBad := outs.find? (fun o => o.res != .ok && o.res != .eof)
-              if firstBad.any (fun o => o.res == .panic || o.res == .hang) then
-                fail "a-call-panicked-before-any-error-was-returned" tags else
-              let reported := firstBad.isSome
-              let hidden : Option String :=
-                if reported then none
-                else if outs.length ≠ w.ops.length then some "history-did-not-complete"
-                else Biogo.Drive.C11.checkHistory w.ac h 1 outs
-              match hidden with
-              | some why => fail s!"success-reported-throughout-but:{why}" tags
+              let reported := reported outs
+              match surfaceStatement w.ac h w.ops outs with
+              | some why => fail why tags
               | none =>
                 if w.flt.isNone && !reported && lastDrained h && w.aclean && dir ≠ "0" then
                   fail "autoclean-drain-leaves-the-directory" tags
